@@ -393,6 +393,7 @@ func runC08(p *Program, r *Report) {
 	checkThreadedState(p, r, "R08b", []*ssa.Function{e}, 2)
 	checkGeometryConsistent(p, r, "R08d", []*ssa.Function{e})
 	checkEmptyForestHasNoPositions(p, r, "R08e", e)
+	checkTwinParentInOrder(p, r, "R08f")
 
 	r.Rule("R08c", "INVERSE-ORDER: the cached-proof undo reverts the additions of the block before its deletions, and reverts the deletions for the leaf count the forest had before the additions (numLeaves - numAdds)")
 	key := "(*Proof).Undo/inverse-order"
@@ -453,7 +454,7 @@ func init() {
 			"over instead of going on with the list it passed in; R08c - the additions of the block are reverted before its deletions and the deletion step works with the leaf count " +
 			"before the additions (numLeaves - numAdds); R08d - within one function the elements of a position list that the function never writes are handed to leaf-count-dependent " +
 			"position functions with one and the same leaf count (a contradiction rule); R08e - outside the hashing core, a call of maxPositionAtRow (inexact for a forest without leaves) is " +
-			"dominated by a test that the leaf count it is given is not zero.",
+			"dominated by a test that the leaf count it is given is not zero; R08f - the de-twinning functions put the parent of a sibling pair into their sorted list through an ordered insert or merge.",
 		NotDecided: "every numerical clause: which positions survive pruneEdges, calcPrevPosition, which leaves are kept or dropped, canonicity of the resulting proof, undo depth and redo.",
 		Rules: []RuleDef{
 			{ID: "R08", Statement: "threaded undo state; inverse order of the two phases", Run: runC08},
@@ -770,4 +771,66 @@ func checkMadeProofIsFilled(p *Program, r *Report, rule string, entries []*ssa.F
 		}
 	}
 	r.Floor(rule, "made proof-hash lists that reach the core", n, 1)
+}
+
+// ---------------------------------------------------------------------------
+// R08f TWIN-PARENT-INSERTED-IN-ORDER. De-twinning replaces two sibling entries
+// of a position-sorted list by their parent. Everything downstream (the next
+// twin test, merges, descending walks) relies on the list staying sorted, so
+// the parent has to go in through an ordered insert / merge. "The parent is on
+// a higher row, so it goes to the end" holds only when every entry is on row 0.
+// In the de-twinning functions (the functions of the package whose name starts
+// with deTwin - a naming convention of the code base, used like a table) the
+// list never grows through append / (*hashAndPos).Append.
+
+func checkTwinParentInOrder(p *Program, r *Report, rule string) {
+	r.Rule(rule, "TWIN-PARENT-INSERTED-IN-ORDER: a de-twinning function puts the parent of a sibling pair into its position-sorted list through an ordered insert or merge, never by appending it at the end")
+	n := 0
+	for _, fn := range p.Funcs {
+		if fn.Parent() != nil || fn.Blocks == nil || !p.owns(fn) || !strings.HasPrefix(fn.Name(), "deTwin") {
+			continue
+		}
+		n++
+		key := p.FuncName(fn) + "/ordered-insert"
+		var bad ssa.Instruction
+		ordered := 0
+		for _, sc := range callsIn(p, fn) {
+			cc := sc.call.Common()
+			if builtinName(cc) == "append" {
+				// append used to cut two entries out (append(xs[:i], xs[i+2:]...)) is a deletion: both operands slice the same list
+				if len(cc.Args) == 2 {
+					_, s1 := cc.Args[0].(*ssa.Slice)
+					_, s2 := cc.Args[1].(*ssa.Slice)
+					if s1 && s2 {
+						continue
+					}
+				}
+				if bad == nil {
+					bad = sc.call
+				}
+				continue
+			}
+			callee := cc.StaticCallee()
+			if callee == nil || !p.owns(callee) {
+				continue
+			}
+			switch {
+			case callee.Name() == "Append" || callee.Name() == "AppendMany":
+				if bad == nil {
+					bad = sc.call
+				}
+			case strings.HasPrefix(callee.Name(), "insertInOrder"), strings.HasPrefix(callee.Name(), "insertSort"), strings.HasPrefix(callee.Name(), "mergeSorted"):
+				ordered++
+			}
+		}
+		switch {
+		case bad != nil:
+			r.Violate(rule, key, posOf(p, bad), "the parent of a sibling pair is appended at the end of the position-sorted list: with entries above row 0 the list is no longer sorted, later twins are not found and the positions that follow are remapped wrongly", "in "+p.FuncName(fn))
+		case ordered == 0:
+			r.Undecided(rule, key, p.Pos(fn.Pos()), "cannot see how the parent of a sibling pair enters the list")
+		default:
+			r.Discharge(rule, key, p.Pos(fn.Pos()), "the parent enters the list through an ordered insert / merge", true)
+		}
+	}
+	r.Floor(rule, "de-twinning functions", n, 3)
 }
